@@ -10,6 +10,12 @@ Deductive:
   ConnectionState.do_command   every dispatched command (IDLE included) starts with `hide_expunged` off, whatever the
                           previous command left behind (a refused non-UID command never reaches the fork that would reset it):
                           otherwise the first EXPUNGE during IDLE would be deferred instead of pushed
+  IMAPConnection.handle_updates   every batch receive_updates returned (it forks the selection: the untagged responses
+                          exist only in that return value) is handed to write_updates, shielded, before `done` is looked
+                          at again -- no batch is dropped when DONE arrives in the same round
+  IMAPConnection.idle     idling starts only after do_command answered OK and the continuation request was written;
+                          `done.set()` happens on every path before the updates task is awaited, both tasks are awaited
+                          before idle() returns or raises, the answer carries the IDLE command's tag
   structural              every change-log entry of dict MailboxData is followed by self._updated.set() in the same block
                           (same atomic segment), unconditionally
 Bounded (real server): bursts of APPEND/STORE/EXPUNGE against 1-2 idlers, read-write or read-only, the changing session
@@ -17,12 +23,12 @@ with or without the mailbox selected, the idler's transport blocked (drain held)
 DONE racing with a change in both orders at 0..11 loop turns distance, DONE while blocked; endings DONE / other lines.
 """
 from pyvc.prop import Property, Bounded, Structural
-from . import idle as I, state as ST
+from . import idle as I, state as ST, runstate as RS
 from harness.e2e_idle import bounded_idle
 
 PROPERTY = Property(
     'C16', 'IDLE delivers every change without further stimulus',
-    contracts=I.CONTRACTS + [ST.do_command_sel], registry=dict(list(ST.REG.items()) + list(I.REG.items())),
+    contracts=I.CONTRACTS + [ST.do_command_sel] + RS.CONTRACTS_IDLE, registry=dict(list(ST.REG.items()) + list(I.REG.items())),
     structural=[Structural('mutators_signal', I.mutators_signal)],
     bounded=[Bounded('IDLE bursts with blocked transport and DONE races (real server, dict backend)',
                      'changes {append, two appends back to back, expunge of the lowest / of a middle message, flag change}: all '
@@ -36,6 +42,8 @@ PROPERTY = Property(
                 'every change is signalled in its own atomic segment; bounded: IMAPConnection.idle/handle_updates and the '
                 'delivery itself, on the stated schedules',
     trusted_base=['asyncio progress: a set Event wakes its waiters and ready tasks run (assumed)',
-                  'IMAPConnection.idle / handle_updates (task nest, shield) are outside the verifier: bounded only',
+                  'IMAPConnection.idle / handle_updates: control flow proved over abstract callees (create_task hands back the '
+                  'task, awaiting it gives its result or exception); the actual scheduling of the two tasks, asyncio.shield '
+                  'and cancellation of idle() itself are bounded only',
                   'maildir (1 s timeout + rescan) not covered'],
 )
